@@ -53,7 +53,7 @@ class Inv(Lin):
         m = s.nat_mats(inp, rk); n = s.n; A = m['a'].reshape(n, n); X = m['x'].reshape(n, n)
         if not np.all(np.isfinite(A)) or np.linalg.cond(A) > 1e4: return None
         r = max(np.abs(A @ X - np.eye(n)).max(), np.abs(X @ A - np.eye(n)).max())
-        return f'|A*X-I| = {r:.3g} for a matrix with cond {np.linalg.cond(A):.3g}' if r > s.tol() * 100 else None
+        return f'|A*X-I| = {r:.3g} for a matrix with cond {np.linalg.cond(A):.3g}' if not (r <= s.bound(n, np.linalg.cond(A))) else None
 
 
 class InvBatch(Lin):
@@ -87,7 +87,7 @@ class InvBatch(Lin):
         for b in range(s.nb):
             A = m['a'][b * n * n:(b + 1) * n * n].reshape(n, n); X = m['x'][b * n * n:(b + 1) * n * n].reshape(n, n)
             if not np.all(np.isfinite(A)) or np.linalg.cond(A) > 1e4: continue
-            if not np.all(np.isfinite(X)) or np.abs(A @ X - np.eye(n)).max() > s.tol() * 100: return f'matrix {b} of the batch: |A*X-I| = {np.abs(A @ X - np.eye(n)).max():.3g}'
+            if not np.all(np.isfinite(X)) or np.abs(A @ X - np.eye(n)).max() > s.bound(n, np.linalg.cond(A)): return f'matrix {b} of the batch: |A*X-I| = {np.abs(A @ X - np.eye(n)).max():.3g}'
         return None
 
 
